@@ -1,1 +1,190 @@
-// harness for rs/anda_db_server/src/auth.rs (mounted by #[cfg(kani)] hook)
+// @module auth::verif_kani
+// Kani harnesses for rs/anda_db_server/src/auth.rs — property C14 (authorization decision).
+// The real `authorize`, `ApiKeyHash::verify` and `constant_time_eq` are executed; only the SHA3
+// digest is replaced by an injective "ideal hash" (collision-freeness of SHA3-256 on the key pool
+// is the assumption). Hashes are always built through `ApiKeyHash::from_key`, and expectations are
+// stated over the *key strings*, so the same bodies replay natively with the real SHA3.
+use super::*;
+use axum::http::StatusCode;
+
+/// Ideal hash: injective on keys of length <= 2 and on the (40-byte) timing dummy:
+/// (length, first byte, second byte).
+fn ideal_from_key(key: &str) -> ApiKeyHash {
+    let b = key.as_bytes();
+    let mut h = [0u8; 32];
+    h[0] = b.len() as u8;
+    if !b.is_empty() {
+        h[1] = b[0];
+    }
+    if b.len() > 1 {
+        h[2] = b[1];
+    }
+    ApiKeyHash(h)
+}
+
+/// A key of 0 or 1 symbolic lowercase ASCII bytes: covers "equal", "different", "empty".
+struct Key {
+    buf: [u8; 1],
+    len: usize,
+}
+impl Key {
+    fn any() -> Self {
+        let c: u8 = kani::any();
+        kani::assume(c >= b'a' && c <= b'd');
+        let len: usize = kani::any();
+        kani::assume(len <= 1);
+        Key { buf: [c], len }
+    }
+    fn s(&self) -> &str {
+        unsafe { std::str::from_utf8_unchecked(&self.buf[..self.len]) }
+    }
+    fn same(&self, o: &Key) -> bool {
+        self.len == o.len && (self.len == 0 || self.buf[0] == o.buf[0])
+    }
+}
+
+fn err_sig(e: &ApiError) -> (u16, usize, usize) {
+    (e.status.as_u16(), e.code.len(), e.message.len())
+}
+
+// @check id=C14 tier=quick cap=600 role=authorize_truth_table
+// @fns auth::authorize, auth::ApiKeyHash::verify, api::constant_time_eq
+// @bound admin/bound/presented each optional; keys are strings of 0..1 symbolic bytes in a..d (equal, different, empty all occur); scope in {Root, Database}
+// @stubs ApiKeyHash::from_key -> injective ideal hash (len, b0, b1)
+// @assume SHA3-256 is collision free on the key pool (ideal hash)
+#[kani::proof]
+#[kani::unwind(34)]
+#[kani::stub(ApiKeyHash::from_key, ideal_from_key)]
+fn c14_authorize_truth_table() {
+    let ka = Key::any();
+    let kb = Key::any();
+    let kp = Key::any();
+    let has_admin: bool = kani::any();
+    let has_bound: bool = kani::any();
+    let has_pres: bool = kani::any();
+    let root: bool = kani::any();
+    let admin = ApiKeyHash::from_key(ka.s());
+    let bound = ApiKeyHash::from_key(kb.s());
+    let scope = if root { Scope::Root } else { Scope::Database("db") };
+    let r = authorize(
+        if has_admin { Some(&admin) } else { None },
+        if has_bound { Some(&bound) } else { None },
+        scope,
+        if has_pres { Some(kp.s()) } else { None },
+    );
+    // the module's four precedence rules, stated over the key strings
+    let expect: Option<Principal> = if !has_admin {
+        Some(Principal::Admin)
+    } else if has_pres && kp.same(&ka) {
+        Some(Principal::Admin)
+    } else if !root && has_bound && has_pres && kp.same(&kb) {
+        Some(Principal::Database)
+    } else {
+        None
+    };
+    match (&r, expect) {
+        (Ok(p), Some(e)) => assert!(*p == e, "principal as the precedence rules say"),
+        (Err(e), None) => {
+            assert!(e.status == StatusCode::UNAUTHORIZED, "rejection is 401");
+        }
+        (Ok(_), None) => assert!(false, "authorized although no rule allows it"),
+        (Err(_), Some(_)) => assert!(false, "rejected although a rule allows it"),
+    }
+    // a per-database key never yields Admin, and never anything in the root scope
+    if has_admin && !(has_pres && kp.same(&ka)) {
+        assert!(!matches!(r, Ok(Principal::Admin)), "no Admin without the admin key");
+        if root {
+            assert!(r.is_err(), "root scope is admin only");
+        }
+    }
+    kani::cover!(matches!(r, Ok(Principal::Database)), "database principal granted");
+    kani::cover!(has_admin && matches!(r, Ok(Principal::Admin)), "admin by key");
+    kani::cover!(r.is_err() && !root && has_bound && has_pres, "wrong key for a bound database");
+    kani::cover!(r.is_err() && root && has_bound && has_pres && kp.same(&kb), "bound key presented at root");
+    std::mem::forget(r);
+}
+
+// Relational: the root scope never consults the bound key; and every rejection is the same
+// response whether the database is bound to another key, unbound / missing, or no token is sent.
+// @check id=C14 tier=quick cap=600 role=uniform_rejection
+// @fns auth::authorize, auth::ApiKeyHash::verify, api::constant_time_eq, error::ApiError::unauthorized
+// @bound two runs that differ only in the `bound` argument (None / Some(any 0..1-byte key)); same admin, presented, scope
+// @stubs ApiKeyHash::from_key -> injective ideal hash (len, b0, b1)
+#[kani::proof]
+#[kani::unwind(34)]
+#[kani::stub(ApiKeyHash::from_key, ideal_from_key)]
+fn c14_uniform_rejection_and_root_ignores_bound() {
+    let ka = Key::any();
+    let kb1 = Key::any();
+    let kb2 = Key::any();
+    let kp = Key::any();
+    let has_b1: bool = kani::any();
+    let has_b2: bool = kani::any();
+    let has_pres: bool = kani::any();
+    let root: bool = kani::any();
+    let admin = ApiKeyHash::from_key(ka.s());
+    let b1 = ApiKeyHash::from_key(kb1.s());
+    let b2 = ApiKeyHash::from_key(kb2.s());
+    let scope = if root { Scope::Root } else { Scope::Database("db") };
+    let pres = if has_pres { Some(kp.s()) } else { None };
+    let r1 = authorize(Some(&admin), if has_b1 { Some(&b1) } else { None }, scope, pres);
+    let r2 = authorize(Some(&admin), if has_b2 { Some(&b2) } else { None }, scope, pres);
+    if root {
+        // same outcome whatever is bound
+        assert!(r1.is_ok() == r2.is_ok(), "root: bound key is never consulted");
+        if let (Ok(p1), Ok(p2)) = (&r1, &r2) {
+            assert!(p1 == p2, "root: same principal");
+        }
+    }
+    if let (Err(e1), Err(e2)) = (&r1, &r2) {
+        assert!(e1.status == e2.status, "uniform status");
+        assert!(e1.code == e2.code, "uniform code");
+        assert!(e1.message == e2.message, "uniform message");
+        assert!(err_sig(e1) == err_sig(e2), "uniform shape");
+    }
+    kani::cover!(r1.is_err() && r2.is_err() && has_b1 && !has_b2, "bound-to-another-key vs unbound, both rejected");
+    kani::cover!(root && has_b1 != has_b2 && r1.is_ok(), "root admin with/without bound key");
+    kani::cover!(!root && r1.is_ok() && r2.is_err(), "bound key decides in database scope");
+    std::mem::forget((r1, r2));
+}
+
+// The digest comparison itself (real constant_time_eq on 32-byte digests): verify(k) accepts
+// exactly the digests equal to from_key(k) — checked on raw symbolic digests, no hash involved.
+// @check id=C14 tier=quick cap=600 role=digest_equality
+// @fns auth::ApiKeyHash::eq, api::constant_time_eq
+// @bound two arbitrary 32-byte digests
+#[kani::proof]
+#[kani::unwind(34)]
+fn c14_digest_equality_is_bytewise() {
+    let a: [u8; 32] = kani::any();
+    let b: [u8; 32] = kani::any();
+    let ha = ApiKeyHash(a);
+    let hb = ApiKeyHash(b);
+    let mut same = true;
+    let mut i = 0;
+    while i < 32 {
+        if a[i] != b[i] {
+            same = false;
+        }
+        i += 1;
+    }
+    assert!((ha == hb) == same, "ApiKeyHash equality is bytewise equality");
+    kani::cover!(same, "equal digests");
+    kani::cover!(!same && a[31] != b[31] && a[0] == b[0], "differ only late");
+}
+
+// @check id=C14 tier=thorough cap=300 expect=fail role=witness
+// @fns auth::authorize
+// @bound vacuity twin: must come back FAILED
+// @stubs ApiKeyHash::from_key -> injective ideal hash (len, b0, b1)
+#[kani::proof]
+#[kani::unwind(34)]
+#[kani::stub(ApiKeyHash::from_key, ideal_from_key)]
+fn c14_witness_must_fail() {
+    let ka = Key::any();
+    let kp = Key::any();
+    let admin = ApiKeyHash::from_key(ka.s());
+    let r = authorize(Some(&admin), None, Scope::Database("db"), Some(kp.s()));
+    std::mem::forget(r);
+    assert!(false, "reachability witness");
+}
